@@ -119,6 +119,9 @@ func (c *reconnectClient) Connect(ctx context.Context, clientID string, opts ...
 								case <-ctxKeepAlive.Done():
 									// Keep alive was stopped as the connection has ended.
 									return
+								case <-c.disconnected:
+									// Disconnect was requested; the failure is the expected end of the connection.
+									return
 								default:
 								}
 								baseCli.SetErrorOnce(err)
